@@ -105,3 +105,78 @@ func vfNewDocSimple() *document {
 	vf.Assert(err == nil, "newDocument succeeds")
 	return d.(*document)
 }
+
+// VF_C14_Effect (C14, C01): every operation a replica produces has, on a second
+// replica that receives it through the encoded form, the effect it had where it
+// was issued - for sequences in which a later operation addresses an element an
+// earlier one has already touched (update then delete, update then update,
+// delete then insert next to the tombstone ...).  List and Document array,
+// positions chosen by the solver.
+func VF_C14_Effect() {
+	which := vf.Choice("datatype", 2)
+	vf.Tag("datatype", which)
+	if which == 0 {
+		x := vfNewList()
+		rRaw, _ := newList(vfBase("k", model.TypeOfDatatype_LIST, "BBBBBBBBBBBBBBBB"), nil, nil)
+		y := rRaw.(*list)
+		_, e := x.InsertMany(0, "a", "b", "c")
+		vf.Assert(e == nil, "history")
+		sent := 0
+		for step := 0; step < 3; step++ {
+			size := x.Size()
+			switch vf.Choice("op", 3) {
+			case 0:
+				_, e = x.Insert(vf.Int("pos", 0, size), "i"+string(rune('0'+step)))
+			case 1:
+				if size == 0 {
+					vf.Assume(false)
+				}
+				_, e = x.Update(vf.Int("pos", 0, size-1), "u"+string(rune('0'+step)))
+			case 2:
+				if size == 0 {
+					vf.Assume(false)
+				}
+				_, e = x.Delete(vf.Int("pos", 0, size-1))
+			}
+			vf.Assert(e == nil, "C03 valid call succeeds")
+			ops := x.CreatePushPullPack().Operations
+			_, re := y.ReceiveRemoteModelOperations(ops[sent:], false)
+			sent = len(ops)
+			vf.Assert(re == nil, "C14 the pushed operation decodes and applies")
+			vf.Assert(sliceEq(listJSON(x), listJSON(y)), "C14 an operation has the same effect on the replica that receives it")
+		}
+		vf.Reach("delivered")
+		return
+	}
+	x := vfNewDocSimple()
+	rRaw, _ := newDocument(vfBase("k", model.TypeOfDatatype_DOCUMENT, "BBBBBBBBBBBBBBBB"), nil, nil)
+	y := rRaw.(*document)
+	_, e := x.PutToObject("arr", []interface{}{"a", "b", "c"})
+	vf.Assert(e == nil, "history")
+	sent := 0
+	for step := 0; step < 3; step++ {
+		arr := child(x, "arr")
+		size := vf.Concretize(arr.snapshot().(*jsonArray).size)
+		switch vf.Choice("op", 3) {
+		case 0:
+			_, e = arr.InsertToArray(vf.Int("pos", 0, size), "i"+string(rune('0'+step)))
+		case 1:
+			if size == 0 {
+				vf.Assume(false)
+			}
+			_, e = arr.UpdateManyInArray(vf.Int("pos", 0, size-1), "u"+string(rune('0'+step)))
+		case 2:
+			if size == 0 {
+				vf.Assume(false)
+			}
+			_, e = arr.DeleteInArray(vf.Int("pos", 0, size-1))
+		}
+		vf.Assert(e == nil, "C03 valid call succeeds")
+		ops := x.CreatePushPullPack().Operations
+		_, re := y.ReceiveRemoteModelOperations(ops[sent:], false)
+		sent = len(ops)
+		vf.Assert(re == nil, "C14 the pushed operation decodes and applies")
+		vf.Assert(jsonDeepEq(x.ToJSON(), y.ToJSON()), "C14 an operation has the same effect on the replica that receives it")
+	}
+	vf.Reach("delivered")
+}
